@@ -503,7 +503,7 @@ def gen_plan(rng, nleaves=None, nfam=None, fancy_names=False, use_internal=None,
     return pl
 
 
-def spell_plan(rng, pl, explicit=False, tag='main', group_ids=None, **spell_kw):
+def spell_plan(rng, pl, explicit=False, tag='main', group_ids=None, p_reuse_ids=0.2, **spell_kw):
     """one permitted spelling of the plan: random member/species/gene order, omissions, wrappers, nesting"""
     sp = Speller(rng, pl.named, explicit=explicit, **spell_kw)
     groups = []
@@ -514,6 +514,21 @@ def spell_plan(rng, pl, explicit=False, tag='main', group_ids=None, **spell_kw):
             it = ('og', group_ids[k], None, it[3])
         groups.append(it)
         histories.append((it[1] if it[1] is not None else it[2], h))
+    # nested groups may repeat the id of their own family (as pyham's own export writes them) or carry the id of
+    # another family: only the ids of top-level groups identify families
+    if groups and rng.random() < p_reuse_ids:
+        tops = [g[1] if g[1] is not None else g[2] for g in groups]
+
+        def reuse(it, own, top):
+            if it[0] == 'og':
+                i, og = it[1], it[2]
+                if not top and i is not None and rng.random() < 0.6:
+                    i = own if rng.random() < 0.7 else rng.choice(tops)
+                return ('og', i, og, [reuse(x, own, False) for x in it[3]])
+            if it[0] == 'pg':
+                return ('pg', it[1], [reuse(x, own, False) for x in it[2]])
+            return it
+        groups = [reuse(g, t, True) for g, t in zip(groups, tops)]
     order = list(range(len(groups)))
     rng.shuffle(order)
     groups = [groups[i] for i in order]
